@@ -103,6 +103,21 @@ def laws(case):
                 out.append(("fixpoint:differs", "%s (%s): re-encoding the decoded message gives a different datagram" % (case["name"], tag)))
         except Exception as e:
             out.append(("fixpoint:raises:%s" % type(e).__name__, "%s (%s): re-encode raised %r" % (case["name"], tag, e)))
+    # ---- (d) a received message (body not looked at yet) is given other extra header bytes and sent on: same blocks, new extra ----
+    if not out:
+        new_extra = (case["extra"] + b"\x07") if len(case["extra"]) < 255 else case["extra"][:-1]
+        try:
+            m3 = DESERS[True].deserialize(dg)
+            m3.extra = new_extra
+            m4 = DESERS[False].deserialize(bytes(SER.serialize(m3)))
+            for loc, why in gt.compare_decoded(dict(case, extra=new_extra), m4)[:2]:
+                out.append(("re-headed:value:%s" % (loc.split(":")[-1] if ":" in loc else "structure"),
+                            "%s with its extra header bytes replaced (%d -> %d bytes) before its body was parsed: %s: %s" % (
+                                case["name"], len(case["extra"]), len(new_extra), loc, why)))
+            if bytes(m4.extra) != new_extra:
+                out.append(("re-headed:extra", "extra %r != %r" % (bytes(m4.extra)[:20], new_extra[:20])))
+        except Exception as e:
+            out.append(("re-headed:raises:%s" % type(e).__name__, "%s: replacing the extra header bytes of a received message and re-encoding raised %r" % (case["name"], e)))
     # de-duplicate (both modes usually agree)
     seen, uniq = set(), []
     for s, m in out:
